@@ -1136,6 +1136,24 @@ static void designation(Token **rest, Token *tok, Initializer *init) {
   initializer2(rest, tok, init);
 }
 
+// The number of scalar elements of `ty`, counted up to `limit`.
+static long count_elements(Type *ty, long limit) {
+  if (ty->kind == TY_ARRAY) {
+    if (ty->array_len <= 0)
+      return 0;
+    long n = count_elements(ty->base, limit);
+    return (n && ty->array_len > limit / n) ? limit + 1 : n * ty->array_len;
+  }
+
+  if (ty->kind == TY_STRUCT || ty->kind == TY_UNION) {
+    long n = 0;
+    for (Member *mem = ty->members; mem && n <= limit; mem = mem->next)
+      n += count_elements(mem->ty, limit);
+    return n;
+  }
+  return 1;
+}
+
 // An array length can be omitted if an array has an initializer
 // (e.g. `int x[] = {1,2,3}`). If it's omitted, count the number
 // of initializer elements.
@@ -1159,6 +1177,8 @@ static int count_array_init_elements(Token *tok, Type *ty) {
         error_tok(start, "array designator index is negative");
       if (val >= INT32_MAX)
         error_tok(start, "array is too large");
+      if (val >= (1L << 22) || count_elements(array_of(ty->base, val + 1), 1L << 22) > 1L << 22)
+        error_tok(start, "initializers for objects of more than %ld elements are not supported", 1L << 22);
       i = val;
       tok = skip(tok, "]");
       designation(&tok, tok, dummy);
@@ -1422,6 +1442,11 @@ static Type *copy_struct_type(Type *ty) {
 }
 
 static Initializer *initializer(Token **rest, Token *tok, Type *ty, Type **new_ty) {
+  // An initializer is represented element by element; beyond a few
+  // million elements that takes minutes and gigabytes.
+  if (count_elements(ty, 1L << 22) > 1L << 22)
+    error_tok(tok, "initializers for objects of more than %ld elements are not supported", 1L << 22);
+
   Initializer *init = new_initializer(ty, true);
   initializer2(rest, tok, init);
 
